@@ -261,6 +261,7 @@ def run_histories(ctx, exe, histories, label):
         ctx.broken.append(('correspondence:%s-driver' % label, 'driver exit %s: %s' % (rc2, e2.decode('latin1')[-400:])))
     nbad = 0
     failed, diverged = set(), set()
+    prevmax = {}
     cur_os = None
     for n, (hi, oi) in enumerate(index):
         a = il[n] if n < len(il) else 'MISSING'
@@ -279,6 +280,12 @@ def run_histories(ctx, exe, histories, label):
         if ' | ' in a and oi > 0 and hi not in diverged:
             ctx.distinct.add(a.split(' | ')[1])
         sig = monitor(ops[oi], a, s, cur_os)
+        # "refused without any effect" includes the capacity and with it the element buffer (theorem C10_refused_no_effect is about
+        # the whole state): a refused operation must leave max where the previous line of the same history showed it
+        mm = re.search(r' \| num=\d+ max=(\d+) ', a + ' ')
+        if sig is None and mm and a.startswith('refused') and oi > 0 and prevmax.get(hi) is not None and int(mm.group(1)) != prevmax[hi]:
+            sig = {'op': p[0], 'observed': 'refused-but-capacity-changed'}
+        prevmax[hi] = int(mm.group(1)) if mm else None
         if sig is not None:
             failed.add(hi)
             small = shrink(ctx, exe, ops[:oi + 1], sig)
